@@ -20,6 +20,7 @@ import (
 
 type channel struct {
 	mu                    sync.RWMutex
+	mpdMu                 sync.Mutex // guards mpd and startTime (init segments of several tracks arrive concurrently)
 	name                  string
 	dir                   string
 	authUser              string
@@ -132,6 +133,8 @@ func (ch *channel) addInitDataAndUpdateTimescale(stream stream, init *mp4.InitSe
 		init:        init,
 	}
 	log := slog.Default().With("chName", stream.chName, "trName", stream.trName)
+	ch.mpdMu.Lock()
+	defer ch.mpdMu.Unlock()
 	moov := init.Moov
 	if len(moov.Traks) != 1 {
 		return fmt.Errorf("expected one track, got %d", len(moov.Traks))
@@ -360,9 +363,11 @@ func (ch *channel) receivedSegData(rsd recSegData) {
 							"seqNrShift", ch.masterSeqNrShift, "timeShift", ch.masterTimeShift)
 					}
 					ch.mu.Unlock()
+					ch.mpdMu.Lock()
 					ch.deriveAndSetBitrates()
 					ch.deriveAndSetFrameRates(log)
 					err = ch.updateAndWriteMPD(log)
+					ch.mpdMu.Unlock()
 					if err != nil {
 						log.Error("failed to write MPD", "err", err)
 					}
